@@ -155,7 +155,7 @@ def run_c11(rep, tier, seed):
     distinct = 0
     for kind in KINDS:
         names = ("copy-matches-reference", "inplace-matches-reference", "copy-leaves-source-untouched", "inplace-returns-self",
-                 "inverse-restores", "result-usable")
+                 "inverse-restores", "result-usable", "queries-behave-as-on-a-freshly-built-graph")
         G = {n: Group(rep, f"C11/bounded/{kind}/{n}") for n in names}
         for name, ref in corpus(kind, seed):
             if not ref.atoms:
@@ -200,6 +200,10 @@ def run_c11(rep, tier, seed):
                         c.add_bond(-99999, at[0])
                         c.remove_atom(-99999)
                         return coherent(c) or (None if snapshot(c).canon() == exp else ["edits not undone"])
+                    # every look-up (present and absent keys) answers / raises as on a freshly built graph and changes nothing
+                    for variant, gg in (("copy", src.relabel_atoms(dict(m), copy=True)), ("inplace", build_real(ref).relabel_atoms(dict(m), copy=False))):
+                        diffs = query_differences(kind, gg, build_real(ref.relabel(f)))
+                        G["queries-behave-as-on-a-freshly-built-graph"].case(not diffs, f"{name}/{mname}/{variant}: {diffs[:3]}", body % f"queries-{variant}")
                     probs, err4 = safe(use)
                     G["result-usable"].case(not err4 and not probs, f"{name}/{mname}: relabelled graph not usable: {err4 or probs}", body % "usable")
         for g in G.values():
@@ -207,9 +211,34 @@ def run_c11(rep, tier, seed):
     rep.distinct_nontrivial = distinct
 
 
+def query_differences(kind, g, fresh):
+    """runs the read-only look-ups of vf/spec/refops.py:queries on g and on a freshly built graph with the same views:
+    same answered / raised status, no look-up may change either graph"""
+    from ..spec.refops import queries
+
+    ids = sorted(snapshot(fresh).atoms)[:3] + [-4242]
+    out = []
+    for (qn, q), (_, q2) in zip(queries(kind, tuple(ids)), queries(kind, tuple(ids))):
+        b1, b2 = raw_state(g), raw_state(fresh)
+        r1, e1 = safe(lambda: q(g))
+        r2, e2 = safe(lambda: q2(fresh))
+        if (e1 is None) != (e2 is None) or (e1 is not None and e1.split(":")[0] != e2.split(":")[0]):
+            out.append(f"{qn}: {'raised ' + str(e1) if e1 else 'answered'} on the relabelled graph, {'raised ' + str(e2) if e2 else 'answered'} on a fresh one")
+        if raw_state(g) != b1:
+            out.append(f"{qn} changed the relabelled graph")
+        if raw_state(fresh) != b2:
+            out.append(f"{qn} changed the fresh graph")
+    return out
+
+
 def replay_c11(ref, m, what):
     f = lambda x: m.get(x, x)  # noqa
     exp = ref.relabel(f).canon()
+    if what.startswith("queries-"):
+        g = build_real(ref).relabel_atoms(dict(m), copy=(what == "queries-copy"))
+        d = query_differences(ref.kind, g, build_real(ref.relabel(f)))
+        print(d[:5])
+        return not d
     src = build_real(ref)
     before = raw_state(src)
     if what == "inplace" or what == "self":
